@@ -519,8 +519,8 @@ def run_case(case):
                 return set(a[1]) <= {"Z", "I"}
             if a[0] == "SP":
                 return set(a[2]) <= {"Z", "I"}
-            if a[0] == "L":
-                return all(set(t[1]) <= {"Z", "I"} for t in a[1])
+            # sums are measured term by term by the devices; their eigvals() are sorted, i.e. their own
+            # process_samples presupposes the sum's diagonalizing gates -- not a computational-basis request
             return False
 
         todo = [mp_ for mp_ in case["mps"] if z_basis(mp_)]
